@@ -972,9 +972,9 @@ def impl_attr_lines(kw):
     import src.id_policy as IDP
     M = _impl()
     io = M.AIO.IOSupport(types.SimpleNamespace())
-    db = gffutils.create_db(attr_reference_gtf(kw), ":memory:", from_string=True, force=True, keep_order=True,
-                            merge_strategy="error", sort_attribute_values=True, disable_infer_transcripts=True,
-                            disable_infer_genes=True)
+    db = vlib.gff_db_from_string(attr_reference_gtf(kw), force=True, keep_order=True,
+                                 merge_strategy="error", sort_attribute_values=True, disable_infer_transcripts=True,
+                                 disable_infer_genes=True)
     novel = []
     for m in kw["novel"]:
         t = M.GI.TranscriptModel("chr1", m["strand"], m["transcript_id"], m["gene_id"], tl(m["exons"]),
